@@ -2,6 +2,7 @@ import Rangers.Basic.Hex
 import Rangers.Basic.Line
 import Rangers.Model.Miner
 import Rangers.Model.MinerReal
+import Rangers.Model.MinerRefundHeight
 /-! Line-protocol driver for C20: runs `Rangers.Miner` with `realCfg` on the op lines the Go harness
     produced and prints the same observation lines. Unparseable lines answer `bad-op`. -/
 namespace Rangers.Drive.C20
@@ -155,6 +156,12 @@ def stepOpt (d : D) (ws : List String) : Option (D × String) :=
     | ["endblock", n] => do
       let n ← n.toNat?
       pure ({ d with st := endBlock d.st n, committed := endBlock d.st n, heights := d.heights ++ [n] }, "ok")
+    | ["rheight", a, b, c, _fork, now, left, typ, ds] => do
+      let now ← now.toNat?; let left ← left.toNat?; let typ ← typ.toNat?
+      let ds ← if ds == "." then some [] else (ds.splitOn ",").mapM String.toNat?
+      if now > maxU64 ∨ left > maxU64 ∨ typ > 255 ∨ ds.any (· > maxU64) then none
+      let fl : RefundFlags := { p012 := a == "1", p004 := b == "1", p011Now := c == "1" }
+      pure (d, toString (refundHeightOf fl now left typ ds))
     | ["rewind"] =>
       -- the block being executed is discarded: the account state falls back to the last block end; the public-key
       -- cache is not part of it and keeps what the discarded block put there
